@@ -1,7 +1,7 @@
 (* C03 -- type references bind to the entity the scoping rules designate.
    Statements only; proofs in Sema/Lookup.v and Sema/ResolveProofs.v. *)
 From Coq Require Import List Bool Arith Permutation.
-From SliceV Require Import Sema.Lookup Sema.Resolve Sema.ResolveProofs.
+From SliceV Require Import Sema.Scoped Sema.ScopedProofs Sema.Lookup Sema.Resolve Sema.ResolveProofs.
 Import ListNotations.
 
 (* the lookup walks outwards: scope::id, then one segment fewer, ..., finally the global scope;
@@ -41,3 +41,12 @@ Example C03_instance :
   resolve t XType [1] {| tr_global := false; tr_name := [4]; tr_attrs := [] |} = Bound 70 [7;5;6]
   /\ resolve t XIface [1] {| tr_global := false; tr_name := [4]; tr_attrs := [] |} = ErrMismatch.
 Proof. vm_compute. split; reflexivity. Qed.
+
+(* every definition, field, enumerator and operation can be retrieved from the AST by its fully scoped name: in the model of the
+   lookup table over several files (Sema/Scoped.v), once the redefinition pass is silent every entity entered in the table is what
+   its own scoped identifier leads to, whatever the order of the files -- parameters and return members too, where no operation
+   uses one name for both (they share an AST scope; Ast::find_node documents that these may not be unique) *)
+Theorem C03_entities_retrievable_by_scoped_name : forall fs f k,
+  redef_report fs = [] -> Forall ops_ok (all_defs fs) -> In f fs -> In k (entity_keys f) ->
+  exists p, sc_lookup k (sc_table fs) = Some (ScEntity (sf_id f) p).
+Proof. exact entities_retrievable. Qed.
